@@ -109,6 +109,7 @@ type fEnv struct {
 	hangFor  time.Duration
 	integs   map[string][]fInteg // receiver name -> integrations
 	instance string
+	inflight int // Notify calls currently in progress
 }
 
 func (e *fEnv) mode(recv, integ string) fMode {
@@ -124,6 +125,12 @@ func (e *fEnv) setMode(key string, m fMode) {
 	e.mu.Lock()
 	e.modes[key] = m
 	e.mu.Unlock()
+}
+
+func (e *fEnv) inFlight() int {
+	e.mu.Lock()
+	defer e.mu.Unlock()
+	return e.inflight
 }
 
 func (e *fEnv) snapshot() []fAttempt {
@@ -165,6 +172,14 @@ func (n *fNotifier) Notify(ctx context.Context, alerts ...*alert.Alert) (bool, e
 		at.Alerts = append(at.Alerts, o)
 	}
 	sort.Slice(at.Alerts, func(i, j int) bool { return at.Alerts[i].Name < at.Alerts[j].Name })
+	e.mu.Lock()
+	e.inflight++
+	e.mu.Unlock()
+	defer func() {
+		e.mu.Lock()
+		e.inflight--
+		e.mu.Unlock()
+	}()
 	var retry bool
 	var err error
 	switch mode {
